@@ -129,6 +129,20 @@ func work(w *mon.W) {
 					ctx.Request.BodyWriteTo(failingWriter{}) //nolint:errcheck
 				case '4':
 					ctx.Request.SetBodyString("substitute")
+				case '6', '7':
+					// a reader put over the framework's stream (decompression, counting) is
+					// installed as the request's body and consumed through the buffered
+					// accessor; what the framework's stream hands out is recorded
+					rec := &recorder{r: ctx.RequestBodyStream()}
+					var over io.Reader = rec
+					if uri[len("/replace")] == '6' {
+						over = &doubler{r: rec} // (produces more than it consumes, as a decompressor does)
+					}
+					ctx.Request.SetBodyStream(over, -1)
+					_, err := ctx.Request.BodyE()
+					st.mu.Lock()
+					st.got, st.gotErr = rec.got, err
+					st.mu.Unlock()
 				default:
 					ctx.Request.SwapBody([]byte("swapped"))
 				}
@@ -400,12 +414,46 @@ type failingWriter struct{}
 
 func (failingWriter) Write(p []byte) (int, error) { return 0, fmt.Errorf("writer fails") }
 
+// recorder notes the bytes its source returns.
+type recorder struct {
+	r   io.Reader
+	got []byte
+}
+
+func (x *recorder) Read(p []byte) (int, error) {
+	n, err := x.r.Read(p)
+	x.got = append(x.got, p[:n]...)
+	return n, err
+}
+
+// doubler returns every byte of its source twice.
+type doubler struct {
+	r    io.Reader
+	pend []byte
+}
+
+func (x *doubler) Read(p []byte) (int, error) {
+	if len(x.pend) == 0 {
+		buf := make([]byte, (len(p)+1)/2)
+		n, err := x.r.Read(buf)
+		for _, b := range buf[:n] {
+			x.pend = append(x.pend, b, b)
+		}
+		if n == 0 {
+			return 0, err
+		}
+	}
+	n := copy(p, x.pend)
+	x.pend = x.pend[n:]
+	return n, nil
+}
+
 func replacedCase(w *mon.W, c *mon.Case, e *route.Engine, st *state) {
 	r := c.R
 	id := c.G*1000 + uint64(r.Intn(1000))
 	L := r.Int(100, 8300, 9000, 20000, 70000)
 	chunked := r.Chance(3)
-	mut := r.Intn(6)
+	mut := r.Intn(8)
 	body := wire.PosBody(int(id%50), L)
 	sm := fmt.Sprintf("GET /smuggled-%d HTTP/1.1\r\nHost: x\r\n\r\n", id)
 	if L > 8300 {
@@ -430,7 +478,7 @@ func replacedCase(w *mon.W, c *mon.Case, e *route.Engine, st *state) {
 	st.mu.Lock()
 	st.cur, st.got, st.gotErr, st.paths, st.done, st.hasDone = plan{stopAfter: -1, readSizes: []int{4096}}, nil, nil, nil, nil, false
 	st.mu.Unlock()
-	names := []string{"SetBody", "ResetBody", "SetBodyStream", "BodyWriteTo(failing writer)", "SetBodyString", "SwapBody"}
+	names := []string{"SetBody", "ResetBody", "SetBodyStream", "BodyWriteTo(failing writer)", "SetBodyString", "SwapBody", "SetBodyStream(a doubling reader over RequestBodyStream()) + BodyE", "SetBodyStream(a recording reader over RequestBodyStream()) + BodyE"}
 	c.Detail = func() interface{} {
 		return map[string]interface{}{"family": "replaced", "body_len": L, "chunked": chunked, "handler_calls": "Request." + names[mut], "policy": policy, "buf": buf}
 	}
@@ -444,6 +492,20 @@ func replacedCase(w *mon.W, c *mon.Case, e *route.Engine, st *state) {
 	if res.Panic != nil {
 		c.Violate(mon.PanicKey(res.Stack), "panic: %v\n%s", res.Panic, trunc(res.Stack, 2000))
 		return
+	}
+	if mut >= 6 {
+		st.mu.Lock()
+		got, gerr := append([]byte(nil), st.got...), st.gotErr
+		st.mu.Unlock()
+		w.Count("replaced_wrapped_streams_read", 1)
+		if gerr != nil || !bytes.Equal(got, body) {
+			d := 0
+			for d < len(got) && d < len(body) && got[d] == body[d] {
+				d++
+			}
+			c.Violate("read-mismatch", "handler calls Request.%s: the framework's stream returned %d bytes (BodyE error %v) for a body of %d; first difference at offset %d: sent %q read %q", names[mut], len(got), gerr, len(body), d, trunc(string(body[d:]), 24), trunc(string(got[d:]), 24))
+			return
+		}
 	}
 	st.mu.Lock()
 	paths := append([]string{}, st.paths...)
